@@ -38,17 +38,17 @@ def _strip_not(e):
     return e, flip
 
 
-def walk_stmts(stmts, valuation, norm, env=None):
+def walk_stmts(stmts, valuation, norm, env=None, stop_pred=None):
     """walk a statement list (e.g. a loop body) as if it were a function body, starting from the bindings `env`"""
     f = ast.FunctionDef(name="_block", args=ast.arguments(posonlyargs=[], args=[], kwonlyargs=[], kw_defaults=[], defaults=[]),
                         body=[clone(s) for s in stmts], decorator_list=[], lineno=getattr(stmts[0], "lineno", 1), col_offset=0)
     ast.fix_missing_locations(f)
     from .canon import set_parents
     set_parents(f)
-    return walk(f, valuation, norm, env=env)
+    return walk(f, valuation, norm, env=env, stop_pred=stop_pred)
 
 
-def walk(fn, valuation: Dict[str, bool], norm: Callable[[ast.AST], str], max_steps=400, env=None):
+def walk(fn, valuation: Dict[str, bool], norm: Callable[[ast.AST], str], max_steps=400, env=None, stop_pred=None):
     """follow the unique path selected by `valuation` (atom text -> truth). Returns ('return', expr) | ('raise', node) | ('fall', None) |
     ('loop', (env, node)) | ('unknown', reason)"""
     g = CFG(fn)
@@ -59,12 +59,14 @@ def walk(fn, valuation: Dict[str, bool], norm: Callable[[ast.AST], str], max_ste
     while steps < max_steps:
         steps += 1
         if node.id == g.exit.id:
-            return ("fall", None)
+            return ("fall", dict(env))
         if node.id in visited:
             return ("unknown", "loop on the path")
         visited.add(node.id)
         a = node.ast
         succ = g.succ[node.id]
+        if stop_pred is not None and a is not None and node.kind == "stmt" and stop_pred(a):
+            return ("stop", (dict(env), a))
         if node.kind == "test":
             core, flip = _strip_not(a)
             txt = norm(_Sub({}).visit(clone(core)))
@@ -120,7 +122,7 @@ def walk(fn, valuation: Dict[str, bool], norm: Callable[[ast.AST], str], max_ste
         nxt = [m for m, lab in succ if lab != "exc"]
         if len(nxt) != 1:
             if not nxt:
-                return ("fall", None)
+                return ("fall", dict(env))
             return ("unknown", "branching without a test")
         node = g.nodes[nxt[0]]
     return ("unknown", "path too long")
